@@ -56,6 +56,9 @@ func textItem(s string) Item { // a text reply; written as a line item when it e
 }
 
 func genC12(tier string, rng *Rng) {
+	if runInChild() {
+		return
+	}
 	findDriver("C12")
 	info := mustMarshal(&rwp.OutboundMessage{PanelInfo: &rwp.PanelInfo{Model: "SK_TEST", Serial: "123456", Name: "probe"}})
 	classes := []replyClass{
@@ -147,6 +150,30 @@ func genC12(tier string, rng *Rng) {
 			sc := &Scenario{ID: fmt.Sprintf("client-two-%s-%s", pair[0].name, pair[1].name), Entry: "client", Conns: []ConnScript{first, mk(pair[1], 0)}, Cancel: redial + t0 + 700}
 			scs = append(scs, sc)
 			hist["two-connections"]++
+		}
+	}
+	// traffic READY at connect time: a list already queued on msgsToPanel before the connection
+	// exists while the onconnect callback takes 300 ms; the callback itself writing a line to the
+	// conn it is handed.  The first thing the panel receives after the probe must be the single LF.
+	{
+		queued := [][]Submission{{{Msgs: []*rwp.InboundMessage{{FlowMessage: rwp.InboundMessage_PING}, {States: []*rwp.HWCState{{HWCIDs: []uint32{7}, HWCMode: &rwp.HWCMode{State: 4}}}}}}}}
+		type rep struct {
+			name  string
+			items []Item
+			t0    int
+		}
+		for _, r := range []rep{{"rdy", []Item{textItem("RDY\n")}, 0}, {"map", []Item{textItem("map=1:2\n")}, 0}, {"silence", nil, 2000}, {"ack", []Item{{Kind: "f", Data: Lit(ackPayload)}}, 0}, {"err", []Item{textItem("ErrorMsg=busy\n")}, 0}} {
+			mk := func() ConnScript {
+				cs := ConnScript{Items: r.items, End: "none"}
+				if len(r.items) > 0 {
+					cs.Segs = []SegCut{{0, 1 << 30}}
+				}
+				return cs
+			}
+			scs = append(scs, &Scenario{ID: "client-ready-queued-" + r.name, Entry: "client", Conns: []ConnScript{mk()}, Subs: queued, SubConn: -1, ConnectSleep: 300, Cancel: r.t0 + 1000})
+			scs = append(scs, &Scenario{ID: "client-ready-cbwrite-" + r.name, Entry: "client", Conns: []ConnScript{mk()}, ConnectWrite: []byte("list\n"), ConnectSleep: 100, Cancel: r.t0 + 800})
+			scs = append(scs, &Scenario{ID: "client-ready-atconnect-" + r.name, Entry: "client", Conns: []ConnScript{mk()}, Subs: queued, SubConn: 0, SubStart: 0, ConnectSleep: 300, Cancel: r.t0 + 1000})
+			hist["ready-at-connect"] += 3
 		}
 	}
 	if tier == "thorough" {
